@@ -24,8 +24,8 @@ import (
 //   - exactly one value is handed over to a list field of the genome inside the loop (obj.F = append(obj.F, x),
 //     addNode(x), or a local collection handed over as a whole), and the hand-over dominates every latch: every
 //     iteration that goes on hands its record over;
-//   - that value is an object created inside the loop (an allocation or a constructor call), so every iteration
-//     restores a fresh record; its field state is taken AT the hand-over (Summaries.ObjectAt), and nothing writes to the
+//   - that value is an object created inside the loop (an allocation or a constructor call; where the branches of an
+//     iteration build it by different calls, each of them, joined field-wise), so every iteration restores a fresh record; its field state is taken AT the hand-over (Summaries.ObjectAt), and nothing writes to the
 //     object between the hand-over and the next iteration's object (a record changed after it was put into the genome
 //     would not be what the slot map describes);
 //   - the element document is S[i].(map..) with i the loop's own counter (the element of THIS iteration).
@@ -37,7 +37,7 @@ type c15YamlRegion struct {
 	key      string // the section key the loop iterates
 	list     *Term  // S
 	idx      ssa.Value
-	obj      ssa.Value       // the record object (Alloc or constructor Call inside the loop)
+	objs     []ssa.Value     // the record object: an Alloc or constructor Call inside the loop (several when branches of the iteration build it by different calls; exactly one of them reaches the hand-over in one iteration)
 	recType  *types.Named    // its struct type
 	handover ssa.Instruction // where the genome receives it
 	field    string          // the genome list that receives it
@@ -218,35 +218,54 @@ func (c *c15) yamlRegions(fn *ssa.Function) []*c15YamlRegion {
 			continue // no record handed over here (or not exactly one: the named-helper rules see those)
 		}
 		cd := cands[0]
-		obj := stripPtr(cd.v)
-		if _, isPhi := obj.(*ssa.Phi); isPhi {
+		objs := []ssa.Value{stripPtr(cd.v)}
+		if _, isPhi := objs[0].(*ssa.Phi); isPhi {
 			// `rec, err := <helper body written out or expanded by the normaliser>`: a phi whose alternatives are selected
-			// together with the error; at the hand-over (err == nil) one alternative is left
-			if only := OnlyAt(obj, cd.at.Block()); only != nil {
-				obj = stripPtr(only)
+			// together with the error; at the hand-over (err == nil) the alternatives of the error exits are gone. What
+			// is left are the objects the branches of one iteration build (`if t != nil { g = A(..) } else { g = B(..) }`).
+			ph := objs[0]
+			objs = nil
+			for _, a := range NarrowAt(ph, cd.at.Block()) {
+				objs = append(objs, stripPtr(a))
 			}
 		}
-		switch o := obj.(type) {
-		case *ssa.Alloc:
-		case *ssa.Call:
-			if o.Call.StaticCallee() == nil {
-				continue
+		var named *types.Named
+		okObjs := len(objs) > 0
+		for _, obj := range objs {
+			switch o := obj.(type) {
+			case *ssa.Alloc:
+			case *ssa.Call:
+				if o.Call.StaticCallee() == nil {
+					okObjs = false
+				}
+			default:
+				okObjs = false // the result of a helper (an Extract), a parameter, nil, ..: not built in place
 			}
-		default:
-			continue // the result of a helper (an Extract), a phi, ..: not built in place
+			n, _ := deref(obj.Type()).(*types.Named)
+			if n == nil || (named != nil && n != named) {
+				okObjs = false
+			}
+			named = n
 		}
-		named, _ := deref(obj.Type()).(*types.Named)
-		if named == nil {
+		if !okObjs {
 			continue
 		}
 		if _, isStruct := named.Underlying().(*types.Struct); !isStruct {
 			continue
 		}
-		g := &c15YamlRegion{fn: fn, loop: l, key: sr.Slot, list: bt.Args[0], idx: idx, obj: obj, recType: named, handover: cd.at, field: cd.field}
+		g := &c15YamlRegion{fn: fn, loop: l, key: sr.Slot, list: bt.Args[0], idx: idx, objs: objs, recType: named, handover: cd.at, field: cd.field}
 		out = append(out, g)
-		oi := obj.(ssa.Instruction)
-		if !l.Blocks[oi.Block()] {
-			g.why = "the object handed to the genome is created outside the loop: all iterations share one record"
+		isObj := map[ssa.Value]bool{}
+		isCreation := map[ssa.Instruction]bool{}
+		for _, obj := range objs {
+			isObj[obj] = true
+			oi := obj.(ssa.Instruction)
+			isCreation[oi] = true
+			if !l.Blocks[oi.Block()] {
+				g.why = "the object handed to the genome is created outside the loop: all iterations share one record"
+			}
+		}
+		if g.why != "" {
 			continue
 		}
 		hb := cd.at.Block()
@@ -265,17 +284,21 @@ func (c *c15) yamlRegions(fn *ssa.Function) []*c15YamlRegion {
 			}
 			switch x := in.(type) {
 			case *ssa.Store:
-				if fa, ok := x.Addr.(*ssa.FieldAddr); ok && stripPtr(fa.X) == obj {
+				if fa, ok := x.Addr.(*ssa.FieldAddr); ok && isObj[stripPtr(fa.X)] {
 					return true
 				}
-				if ia, ok := x.Addr.(*ssa.IndexAddr); ok && (fieldLoadedFrom(ia.X, obj) != nil || fieldHolding(fn, ia.X, obj) != nil) {
-					return true
+				if ia, ok := x.Addr.(*ssa.IndexAddr); ok {
+					for _, obj := range objs {
+						if fieldLoadedFrom(ia.X, obj) != nil || fieldHolding(fn, ia.X, obj) != nil {
+							return true
+						}
+					}
 				}
 			case ssa.CallInstruction:
 				cm := x.Common()
 				if cal := cm.StaticCallee(); cal != nil && InRepo(cal) {
 					for _, a := range cm.Args {
-						if stripPtr(a) == obj {
+						if isObj[stripPtr(a)] {
 							return true
 						}
 					}
@@ -284,13 +307,42 @@ func (c *c15) yamlRegions(fn *ssa.Function) []*c15YamlRegion {
 			return false
 		}
 		if path := FindPath(c.p, PathQuery{Fn: fn, StartAfter: cd.at, FlagBlind: true, Target: touches,
-			Avoid: func(in ssa.Instruction) bool { return in == oi }}); path != nil {
+			Avoid: func(in ssa.Instruction) bool { return isCreation[in] }}); path != nil {
 			g.why = "the record is written to (or handed to a repository function) after it was put into the genome"
 			continue
 		}
-		g.sm = c.sums.ObjectAt(fn, obj, cd.at)
-		if g.sm.Why != "" {
-			g.why = g.sm.Why
+		// the field state at the hand-over, joined over the objects (as a constructor with several return sites)
+		g.sm = &Summary{Fn: fn, Type: named, Fields: map[*types.Var]*Term{}, Elems: map[*types.Var]*Term{}, Fresh: true}
+		seenF := map[*types.Var]int{}
+		for _, obj := range objs {
+			one := c.sums.ObjectAt(fn, obj, cd.at)
+			if one.Why != "" {
+				g.why = one.Why
+				break
+			}
+			g.sm.Fresh = g.sm.Fresh && one.Fresh
+			for f, t := range one.Fields {
+				seenF[f]++
+				if prev, ok := g.sm.Fields[f]; ok {
+					if prev.String() != t.String() {
+						g.sm.Fields[f] = &Term{Op: "phi", Args: []*Term{prev, t}}
+					}
+				} else {
+					g.sm.Fields[f] = t
+				}
+			}
+			for f, t := range one.Elems {
+				if prev, ok := g.sm.Elems[f]; ok {
+					g.sm.Elems[f] = &Term{Op: "phi", Args: []*Term{prev, t}}
+				} else {
+					g.sm.Elems[f] = t
+				}
+			}
+		}
+		for f, n := range seenF {
+			if n < len(objs) {
+				g.sm.Fields[f] = &Term{Op: "phi", Args: []*Term{g.sm.Fields[f], {Op: "const", Name: "zero"}}}
+			}
 		}
 	}
 	c.yamlRg[fn] = out
